@@ -468,6 +468,8 @@ def run(res, tier, seed):
         # K1 on the st inputs
         if not broken:
             k1n = 420 if tier == "quick" else 4000
+            res.cov["translator"] = pegcases.regenerate_grammar()   # the PEG model follows /repo's current grammar
+            common.coq_make()
             srcs = [c["run"]["src"] for c in cases[:k1n * 3 // 4]] + [r["run"]["src"] for r in malformed[:k1n // 4]]
             srcs = list(dict.fromkeys(srcs))
             inputs = [(s.encode("utf-8", "surrogatepass"), pegcases.ALL_ON) for s in srcs]
